@@ -1,6 +1,7 @@
 """Fact base access: functions, CFG, dominators / post-dominators, def-use, canonical value
 expressions (backward provenance, A3), call graph (A1). No rule lives here."""
 import json
+import os
 import re
 from collections import defaultdict, deque
 from functools import lru_cache
@@ -710,6 +711,24 @@ class _PromotedFn(Fn):
     pass
 
 
+_RULE_IDENTS = None
+
+
+def _rule_file_identifiers():
+    """identifiers that occur in the rule files (function names the rules anchor on)"""
+    global _RULE_IDENTS
+    if _RULE_IDENTS is None:
+        import glob
+        import os
+        base = os.path.join(os.path.dirname(os.path.dirname(os.path.abspath(__file__))), "rules")
+        txt = ""
+        for fpath in glob.glob(os.path.join(base, "*.py")) + glob.glob(os.path.join(base, "*.json")):
+            with open(fpath, encoding="utf-8") as fh:
+                txt += fh.read()
+        _RULE_IDENTS = set(re.findall(r"[A-Za-z_][A-Za-z0-9_]{3,}", txt))
+    return _RULE_IDENTS
+
+
 def const_repr(op):
     if "fn" in op:
         return "fn:" + strip_generics(op["fn"])
@@ -763,13 +782,20 @@ class Facts:
         self.impls = j["impls"]
         self._cg = None
         self.accessed = set()
+        self._inl_cache = {}
+        self._inlined_children = {}
 
-    def fn(self, name):
+    def fn(self, name, raw=False):
+        """the function a rule anchors on. By default this is the body with private helpers that no rule names merged in
+        (fn_inl): moving part of an anchor into a new private function, or back, does not change what a rule sees.
+        `raw=True` (and direct access to `fns`) gives the body as compiled -- the A7 audit enumerates sites per function."""
         f = self.fns.get(name)
         if f is None:
             raise AnchorMissing(f"function `{name}` not found in configuration {self.label}")
         self.accessed.add(name)
-        return f
+        if raw or "{closure" in name or os.environ.get("VERIF_NO_INLINE"):
+            return f
+        return self.fn_inl(name)
 
     def has_fn(self, name):
         return name in self.fns
@@ -795,8 +821,109 @@ class Facts:
 
     def closures_of(self, name):
         out = [f for n, f in self.fns.items() if n.startswith(name + "::{closure")]
+        # closures of the private helpers that fn_inl() merged into `name` belong to the merged body
+        for child in self._inlined_children.get(name, ()):
+            out += [f for n, f in self.fns.items() if n.startswith(child + "::{closure")]
         self.accessed.update(f.name for f in out)
         return out
+
+    # ---------------------------------------------------------------- helper inlining (opt-in view)
+    def _inlinable(self, callee, into):
+        """a private, non-recursive local function all of whose call sites lie in `into` (or in helpers already merged
+        into it): what `extract function` produces"""
+        g = self.fns.get(callee)
+        if g is None or callee == into or "{closure" in callee or g.j.get("kind") not in ("Fn", "AssocFn"):
+            return False
+        if g.j.get("vis") == "Public":
+            return False
+        # a function the rule files name is an anchor of its own: rules look for calls TO it; only helpers no rule
+        # knows about (what an `extract function` refactoring introduces) are merged into their caller
+        if callee.split("::")[-1] in _rule_file_identifiers():
+            return False
+        if any(strip_generics(t["callee"]) == callee for b, t in g.calls()):
+            return False
+        family = {into} | set(self._inlined_children.get(into, ()))
+        for f, b, t in self.callers_of("^" + re.escape(callee) + "$"):
+            base = f.name.split("::{closure")[0]
+            if base not in family and base != callee:
+                return False
+        # passed around as a function value somewhere: not a plain helper
+        return True
+
+    def fn_inl(self, name, depth=3):
+        """`name` with its private single-caller helpers merged in (MIR-level inlining: parameters become locals assigned
+        from the call's operands, `return` becomes an assignment to the call's destination and a jump to its
+        continuation). A rule that reads this view is indifferent to `extract function` / `inline function` refactorings of
+        its anchor. The frozen A7 table keeps using the plain bodies (its keys name the function a site lives in)."""
+        if name in self._inl_cache:
+            return self._inl_cache[name]
+        f = self.fn(name, raw=True)
+        import copy
+        if not any(b["t"]["k"] == "call" and self._inlinable(strip_generics(b["t"]["callee"]), name) for b in f.blocks if not b.get("cleanup")):
+            self._inlined_children.setdefault(name, [])
+            self._inl_cache[name] = f
+            return f
+        mir = copy.deepcopy(f.mir)
+        self._inlined_children.setdefault(name, [])
+
+        def rplace(pl, dl):
+            return {"l": pl["l"] + dl,
+                    "p": [({**q, "index": q["index"] + dl} if isinstance(q, dict) and isinstance(q.get("index"), int) else q) for q in pl["p"]]}
+
+        def remap(o, dl):
+            if isinstance(o, dict):
+                if isinstance(o.get("l"), int) and isinstance(o.get("p"), list) and set(o) <= {"l", "p"}:
+                    return rplace(o, dl)
+                return {k: remap(v, dl) for k, v in o.items()}
+            if isinstance(o, list):
+                return [remap(x, dl) for x in o]
+            return o
+
+        def rterm(t, dl, db):
+            t = remap(t, dl)
+            for k in ("t", "otherwise", "unwind"):
+                if isinstance(t.get(k), int) and not isinstance(t.get(k), bool):
+                    t[k] = t[k] + db
+            if "targets" in t:
+                t["targets"] = [[v, b + db] for v, b in t["targets"]]
+            return t
+        for _round in range(depth):
+            changed = False
+            for bi in range(len(mir["blocks"])):
+                blk = mir["blocks"][bi]
+                t = blk["t"]
+                if t["k"] != "call" or blk.get("cleanup"):
+                    continue
+                callee = strip_generics(t["callee"])
+                if not self._inlinable(callee, name):
+                    continue
+                C = self.fns[callee].mir
+                if len(t["args"]) != C["argc"]:
+                    continue
+                dl, db = len(mir["locals"]), len(mir["blocks"])
+                mir["locals"] = mir["locals"] + list(C["locals"])
+                for v in C.get("vars", []):
+                    nv = remap({k: x for k, x in v.items() if k != "arg"}, dl)
+                    mir.setdefault("vars", []).append(nv)
+                for i, a in enumerate(t["args"]):
+                    blk["s"].append({"k": "assign", "pl": {"l": dl + 1 + i, "p": []}, "rv": {"k": "use", "op": a}, "sp": t.get("sp")})
+                for cb in C["blocks"]:
+                    nb = {"s": remap(cb["s"], dl), "t": rterm(cb["t"], dl, db), "cleanup": cb.get("cleanup")}
+                    if nb["t"]["k"] == "return":
+                        nb["s"].append({"k": "assign", "pl": t["dest"], "rv": {"k": "use", "op": {"k": "move", "pl": {"l": dl, "p": []}}},
+                                        "sp": t.get("sp")})
+                        nb["t"] = {"k": "goto", "t": t["t"]} if t.get("t") is not None else {"k": "unreachable"}
+                    mir["blocks"].append(nb)
+                blk["t"] = {"k": "goto", "t": db}
+                if callee not in self._inlined_children[name]:
+                    self._inlined_children[name].append(callee)
+                self.accessed.add(callee)
+                changed = True
+            if not changed:
+                break
+        g = Fn(self, name, f.j, body=mir)
+        self._inl_cache[name] = g
+        return g
 
     # ---------------------------------------------------------------- call graph (A1)
     def callgraph(self):
